@@ -50,10 +50,10 @@ Section Loop.
     let c' := body fdf x_tol r_tol c in
     (bisect_chosen c ->
        c_dx c' = (c_xh c - c_xl c) / 2 /\ c_root c' = c_xl c + (c_xh c - c_xl c) / 2 /\
-       c_conv c' = orb (orb (Reqb (c_root c') (c_xl c)) (Rltb (Rabs (c_dx c')) x_tol)) (Rltb (Rabs (c_F c')) r_tol)) /\
+       c_conv c' = orb (orb (Reqb (c_root c') (c_xl c)) (Rltb (Rabs (c_dx c')) x_tol)) (Rleb (Rabs (c_F c')) r_tol)) /\
     (~ bisect_chosen c ->
        c_dx c' = - c_F c / c_DF c /\ c_root c' = c_root c + - c_F c / c_DF c /\
-       c_conv c' = orb (orb (Reqb (c_root c') (c_root c)) (Rltb (Rabs (c_dx c')) x_tol)) (Rltb (Rabs (c_F c')) r_tol)) /\
+       c_conv c' = orb (orb (Reqb (c_root c') (c_root c)) (Rltb (Rabs (c_dx c')) x_tol)) (Rleb (Rabs (c_F c')) r_tol)) /\
     c_dxOld c' = c_dx c /\ c_F c' = f (c_root c') /\ c_DF c' = df (c_root c') /\
     c_xl c' = (if Rlt_dec (c_F c') 0 then c_root c' else c_xl c) /\
     c_xh c' = (if Rlt_dec (c_F c') 0 then c_xh c else c_root c') /\
@@ -224,43 +224,61 @@ Section Loop.
   Lemma clip_between x b0 b1 : between b0 b1 (clipR x b0 b1).
   Proof. apply between_cases. unfold clipR, Rmin, Rmax. destruct (Rle_dec x b0); destruct (Rle_dec _ b1); lra. Qed.
 
+  (* over R the sign test by signs is the product test (the code compares signs because fl*fh can underflow in binary64) *)
+  Lemma sign_test_R (a b : R) : Rltb (@nmul R NumR (nsign a) (nsign b)) (@nzero R NumR) = Rltb (a * b) 0.
+  Proof.
+    unfold nsign. unfold_num. q2r.
+    rcases_on (Rltb 0 a); rcases_on (Rltb 0 b); try rcases_on (Rltb a 0); try rcases_on (Rltb b 0);
+    unfold Rltb; repeat match goal with |- context [Rlt_dec ?u ?v] => destruct (Rlt_dec u v) end; try reflexivity; exfalso; nra.
+  Qed.
+
   Lemma init_spec x0 b0 b1 :
-    match init f df x0 b0 b1 with
-    | None => ~ (f b0 * f b1 < 0) /\ f b0 <> 0 /\ f b1 <> 0
+    match init f df x0 b0 b1 r_tol with
+    | None => ~ (f b0 * f b1 < 0) /\ r_tol < Rabs (f b0) /\ r_tol < Rabs (f b1)
     | Some c0 =>
         c_i c0 = 0 /\ c_F c0 = f (c_root c0) /\ c_DF c0 = df (c_root c0) /\
-        ((f b0 * f b1 < 0 /\ c_conv c0 = false /\ Inv (Rmin b0 b1) (Rmax b0 b1) c0 /\ c_root c0 = clipR x0 b0 b1)
-         \/ (f b1 = 0 /\ c_conv c0 = true /\ c_root c0 = b1)
-         \/ (f b1 <> 0 /\ f b0 = 0 /\ c_conv c0 = true /\ c_root c0 = b0))
+        (c_conv c0 = false -> r_tol < Rabs (c_F c0)) /\
+        (f b0 * f b1 < 0 -> Inv (Rmin b0 b1) (Rmax b0 b1) c0) /\
+        ((Rabs (f b1) <= r_tol /\ c_conv c0 = true /\ c_root c0 = b1)
+         \/ (r_tol < Rabs (f b1) /\ Rabs (f b0) <= r_tol /\ c_conv c0 = true /\ c_root c0 = b0)
+         \/ (r_tol < Rabs (f b1) /\ r_tol < Rabs (f b0) /\ f b0 * f b1 < 0 /\ c_root c0 = clipR x0 b0 b1 /\
+             c_conv c0 = Rleb (Rabs (f (clipR x0 b0 b1))) r_tol))
     end.
   Proof.
-    unfold init. rewrite clip_R. unfold_num. q2r.
+    unfold init. rewrite clip_R, sign_test_R. unfold_num. q2r.
     pose proof (clip_between x0 b0 b1) as Hclip.
-    assert (Hlo : Rmin b0 b1 <= b0 <= Rmax b0 b1) by (unfold Rmin, Rmax; destruct (Rle_dec b0 b1); lra).
-    assert (Hhi : Rmin b0 b1 <= b1 <= Rmax b0 b1) by (unfold Rmin, Rmax; destruct (Rle_dec b0 b1); lra).
-    rcases_on (Rltb (f b0 * f b1) 0); rcases_on (Reqb (f b0) 0); rcases_on (Reqb (f b1) 0); cbn [negb andb orb];
-    try (exfalso; nra).
-    - (* bracketed *)
-      rcases_on (Rltb (f b0) 0).
-      + cbn. split; [reflexivity|]. split; [reflexivity|]. split; [reflexivity|]. left.
-        split; [assumption|]. split; [reflexivity|]. split; [|reflexivity].
-        constructor; cbn; try assumption; try reflexivity; try nra.
-      + cbn. split; [reflexivity|]. split; [reflexivity|]. split; [reflexivity|]. left.
-        split; [assumption|]. split; [reflexivity|]. split; [|reflexivity].
-        constructor; cbn; try assumption; try reflexivity; try nra.
-        apply between_cases. apply between_cases in Hclip. lra.
-    - unfold_carry. repeat split; try reflexivity. right. left. repeat split; assumption.
-    - unfold_carry. repeat split; try reflexivity. right. right. repeat split; assumption.
-    - unfold_carry. repeat split; try reflexivity. right. left. repeat split; assumption.
-    - repeat split; try assumption; lra.
+    assert (Hlo : between b0 b1 b0) by apply between_left.
+    assert (Hhi : between b0 b1 b1) by apply between_right.
+    assert (Hlo' : Rmin b0 b1 <= b0 <= Rmax b0 b1) by exact Hlo.
+    assert (Hhi' : Rmin b0 b1 <= b1 <= Rmax b0 b1) by exact Hhi.
+    assert (Hinv : forall rt, between b0 b1 rt -> f b0 * f b1 < 0 ->
+              Inv (Rmin b0 b1) (Rmax b0 b1)
+                  (rt, Rabs (b1 - b0), Rabs (b1 - b0), f rt, df rt, (if Rltb (f b0) 0 then b0 else b1), (if Rltb (f b0) 0 then b1 else b0),
+                   (Rleb (Rabs (f b0)) r_tol || Rleb (Rabs (f b1)) r_tol || Rleb (Rabs (f rt)) r_tol)%bool, 0)).
+    { intros rt Hrt Hb. rcases_on (Rltb (f b0) 0); constructor; cbn; try assumption; try reflexivity; try nra.
+      apply between_cases. apply between_cases in Hrt. lra. }
+    rcases_on (Rltb (f b0 * f b1) 0); rcases_on (Rleb (Rabs (f b0)) r_tol); rcases_on (Rleb (Rabs (f b1)) r_tol); cbn [negb andb orb].
+    all: try (split; [reflexivity|]; split; [reflexivity|]; split; [reflexivity|]; split; [cbn; intros; discriminate|]).
+    all: try (split; [intros Hb'; first [lra | apply Hinv; assumption]|]).
+    - left. cbn. auto.
+    - right. left. cbn. auto.
+    - left. cbn. auto.
+    - (* bracketed, no end-point solution *)
+      split; [reflexivity|]. split; [reflexivity|]. split; [reflexivity|]. split.
+      { cbn. intros Hcc. apply Rleb_false. exact Hcc. }
+      split; [intros _; apply Hinv; assumption|]. right. right. cbn. auto.
+    - left. cbn. auto.
+    - right. left. cbn. auto.
+    - left. cbn. auto.
+    - auto.
   Qed.
 
   (* ---- the whole routine ---- *)
   Definition iterate_of (x0 b0 b1 : R) (c : @carry R) : Prop :=
-    exists c0, init f df x0 b0 b1 = Some c0 /\ steps c0 c.
+    exists c0, init f df x0 b0 b1 r_tol = Some c0 /\ steps c0 c.
 
   Lemma rtsafe_spec x0 b0 b1 :
-    match init f df x0 b0 b1 with
+    match init f df x0 b0 b1 r_tol with
     | None => rtsafe f df x0 b0 b1 n x_tol r_tol = Res None false mi 0 0 NotBracketed
     | Some c0 => exists c, steps c0 c /\
         ((cond mi c = false /\ c_conv c = true /\
@@ -272,7 +290,7 @@ Section Loop.
     end.
   Proof.
     unfold rtsafe. rewrite nZ_INR. pose proof (init_spec x0 b0 b1) as Hi.
-    destruct (init f df x0 b0 b1) as [c0|]; [|unfold_num; q2r; reflexivity].
+    destruct (init f df x0 b0 b1 r_tol) as [c0|]; [|unfold_num; q2r; reflexivity].
     destruct Hi as (Hi0 & _).
     pose proof (wloop_spec (fun _ => True) (fun _ _ _ _ => I) n c0 0%nat I Hi0 eq_refl) as Hw.
     fold fdf. fold (fdf_of f df). fold fdf.
@@ -284,12 +302,36 @@ Section Loop.
     - destruct Hw as (Hs & Hc & Hz & _). exists c. split; [exact Hs|]. right. right. auto.
   Qed.
 
+  (* an iterate that is not yet converged has |F| > r_tol: with 0 <= r_tol the body never sees F = 0, so it never computes 0/0 *)
+  Lemma unconverged_residual c0 c : (c_conv c0 = false -> r_tol < Rabs (c_F c0)) -> steps c0 c ->
+    c_conv c = false -> r_tol < Rabs (c_F c).
+  Proof.
+    intros H0 Hs. refine (steps_pres (fun c => c_conv c = false -> r_tol < Rabs (c_F c)) _ c0 c Hs H0).
+    intros c1 _ _ _ Hcv. destruct (body_spec c1) as (HB & HN & _).
+    destruct (Classical_Prop.classic (bisect_chosen c1)) as [Hb|Hb];
+      [destruct (HB Hb) as (_ & _ & E)|destruct (HN Hb) as (_ & _ & E)];
+      rewrite E, !orb_false_iff in Hcv; destruct Hcv as (_ & Hcv); apply Rleb_false in Hcv; exact Hcv.
+  Qed.
+
+  Lemma start_converged x0 b0 b1 c0 : init f df x0 b0 b1 r_tol = Some c0 -> c_conv c0 = true ->
+    rtsafe f df x0 b0 b1 n x_tol r_tol = Res (Some (c_root c0)) true 0 (c_F c0) (c_dx c0) Converged.
+  Proof.
+    intros Hi Hc. pose proof (rtsafe_spec x0 b0 b1) as H. pose proof (init_spec x0 b0 b1) as Hsp. rewrite Hi in H, Hsp.
+    destruct Hsp as (Hi0 & _).
+    assert (Hend : forall c, steps c0 c -> c = c0).
+    { intros c Hs. destruct Hs as [|c1 c2 Hcond _ _]; [reflexivity|]. apply cond_spec in Hcond. destruct Hcond; congruence. }
+    destruct H as (c & Hs & [(_ & _ & E)|[(_ & Hcv & _ & _)|(Hcd & _ & _)]]); rewrite (Hend c Hs) in *.
+    - rewrite E, Hi0. reflexivity.
+    - congruence.
+    - apply cond_spec in Hcd. destruct Hcd; congruence.
+  Qed.
+
   (* ---- theorems of the section ---- *)
   Theorem bracket_invariant x0 b0 b1 : f b0 * f b1 < 0 ->
     forall c, iterate_of x0 b0 b1 c -> Inv (Rmin b0 b1) (Rmax b0 b1) c.
   Proof.
     intros Hb c (c0 & Hi & Hs). pose proof (init_spec x0 b0 b1) as Hsp. rewrite Hi in Hsp.
-    destruct Hsp as (_ & _ & _ & [(_ & _ & Hinv & _)|[(H0 & _)|(_ & H0 & _)]]); try (exfalso; rewrite H0 in Hb; lra).
+    destruct Hsp as (_ & _ & _ & _ & Hinv & _). specialize (Hinv Hb).
     revert Hinv. apply steps_pres; [|exact Hs].
     intros c1 H1 _ Hz. apply body_inv; assumption.
   Qed.
@@ -299,7 +341,7 @@ Section Loop.
 
   Theorem never_out_of_fuel x0 b0 b1 : rtsafe f df x0 b0 b1 n x_tol r_tol <> OutOfFuel.
   Proof.
-    pose proof (rtsafe_spec x0 b0 b1) as H. destruct (init f df x0 b0 b1) as [c0|].
+    pose proof (rtsafe_spec x0 b0 b1) as H. destruct (init f df x0 b0 b1 r_tol) as [c0|].
     - destruct H as (c & _ & [(_ & _ & ->)|[(_ & _ & _ & ->)|(_ & _ & ->)]]); discriminate.
     - rewrite H. discriminate.
   Qed.
@@ -307,60 +349,69 @@ Section Loop.
   Theorem result_contract x0 b0 b1 x cv it F dx w :
     rtsafe f df x0 b0 b1 n x_tol r_tol = Res x cv it F dx w ->
     (x <> None <-> cv = true) /\ (cv = true <-> w = Converged) /\
-    (w = NotBracketed <-> (~ (f b0 * f b1 < 0) /\ f b0 <> 0 /\ f b1 <> 0)) /\
-    (f b1 = 0 -> x = Some b1 /\ it = 0) /\
-    (f b0 = 0 -> f b1 <> 0 -> x = Some b0 /\ it = 0) /\
+    (w = NotBracketed <-> (~ (f b0 * f b1 < 0) /\ r_tol < Rabs (f b0) /\ r_tol < Rabs (f b1))) /\
+    (Rabs (f b1) <= r_tol -> x = Some b1 /\ it = 0) /\
+    (Rabs (f b0) <= r_tol -> r_tol < Rabs (f b1) -> x = Some b0 /\ it = 0) /\
+    (f b0 * f b1 < 0 -> r_tol < Rabs (f b0) -> r_tol < Rabs (f b1) -> Rabs (f (clipR x0 b0 b1)) <= r_tol ->
+       x = Some (clipR x0 b0 b1) /\ it = 0) /\
     (w = IterCap -> INR n <= it) /\
+    (0 <= r_tol -> w <> ZeroOverZero) /\
     (forall v, x = Some v -> F = f v).
   Proof.
     intros Hr. pose proof (rtsafe_spec x0 b0 b1) as H. pose proof (init_spec x0 b0 b1) as Hi.
-    destruct (init f df x0 b0 b1) as [c0|].
-    - destruct Hi as (Hi0 & HF0 & _ & Hcase).
-      assert (Hnb : ~ (~ f b0 * f b1 < 0 /\ f b0 <> 0 /\ f b1 <> 0)).
-      { destruct Hcase as [(A & _)|[(A & _)|(_ & A & _)]]; tauto. }
+    pose proof (start_converged x0 b0 b1) as Hstart.
+    destruct (init f df x0 b0 b1 r_tol) as [c0|].
+    - specialize (Hstart c0 eq_refl). destruct Hi as (Hi0 & HF0 & _ & Hun & _ & Hcase).
+      assert (Hnb : ~ (~ f b0 * f b1 < 0 /\ r_tol < Rabs (f b0) /\ r_tol < Rabs (f b1))).
+      { destruct Hcase as [(A & _)|[(_ & A & _)|(_ & _ & A & _)]]; intros (B1 & B2 & B3); try lra; contradiction. }
       assert (Hpres : forall c, steps c0 c -> c_F c = f (c_root c)).
       { intros c Hs. revert HF0. apply steps_pres with (P := fun c => c_F c = f (c_root c)); [|exact Hs].
         intros c1 _ _ _. destruct (body_spec c1) as (_ & _ & _ & A & _). exact A. }
-      assert (Hend : forall c, steps c0 c -> c_conv c0 = true -> c = c0).
-      { intros c Hs Hc. destruct Hs as [|c1 c2 Hcond _ _]; [reflexivity|]. apply cond_spec in Hcond. destruct Hcond; congruence. }
+      assert (Hends : (Rabs (f b1) <= r_tol -> x = Some b1 /\ it = 0) /\
+                      (Rabs (f b0) <= r_tol -> r_tol < Rabs (f b1) -> x = Some b0 /\ it = 0) /\
+                      (f b0 * f b1 < 0 -> r_tol < Rabs (f b0) -> r_tol < Rabs (f b1) -> Rabs (f (clipR x0 b0 b1)) <= r_tol ->
+                         x = Some (clipR x0 b0 b1) /\ it = 0)).
+      { split; [|split].
+        - intros H1. destruct Hcase as [(_ & A & B)|[(A & _)|(A & _)]]; try lra.
+          rewrite (Hstart A) in Hr. inversion Hr; subst. rewrite B. auto.
+        - intros H0 H1. destruct Hcase as [(A & _)|[(_ & _ & A & B)|(_ & A & _)]]; try lra.
+          rewrite (Hstart A) in Hr. inversion Hr; subst. rewrite B. auto.
+        - intros _ H0 H1 H2. destruct Hcase as [(A & _)|[(_ & A & _)|(_ & _ & _ & B & A)]]; try lra.
+          assert (A' : c_conv c0 = true) by (rewrite A; apply Rleb_true; exact H2).
+          rewrite (Hstart A') in Hr. inversion Hr; subst. rewrite B. auto. }
+      destruct Hends as (He1 & He2 & He3).
       destruct H as (c & Hs & [(Hc & Hcv & E)|[(Hc & Hcv & Hge & E)|(Hc & Hz & E)]]); rewrite E in Hr; inversion Hr; subst; clear Hr.
-      + refine (conj _ (conj _ (conj _ (conj _ (conj _ (conj _ _)))))).
+      + refine (conj _ (conj _ (conj _ (conj He1 (conj He2 (conj He3 (conj _ (conj _ _)))))))).
         * split; congruence.
         * tauto.
         * split; [discriminate|tauto].
-        * intros H1. destruct Hcase as [(A & _)|[(_ & A & B)|(A & _)]]; try (rewrite H1 in A; lra); try contradiction.
-          rewrite (Hend c Hs A). rewrite B. auto.
-        * intros H0 H1. destruct Hcase as [(A & _)|[(A & _)|(_ & _ & A & B)]]; try (rewrite H0 in A; lra); try contradiction.
-          rewrite (Hend c Hs A). rewrite B. auto.
+        * discriminate.
         * discriminate.
         * intros v Hv. inversion Hv; subst. apply Hpres; assumption.
-      + assert (Hnc : c_conv c0 = true -> False).
-        { intros A. rewrite (Hend c Hs A) in Hcv. congruence. }
-        refine (conj _ (conj _ (conj _ (conj _ (conj _ (conj _ _)))))).
+      + refine (conj _ (conj _ (conj _ (conj He1 (conj He2 (conj He3 (conj _ (conj _ _)))))))).
         * split; [tauto|discriminate].
         * split; discriminate.
         * split; [discriminate|tauto].
-        * intros H1. exfalso. destruct Hcase as [(A & _)|[(_ & A & B)|(A & _)]]; try (rewrite H1 in A; lra); try contradiction; auto.
-        * intros H0 H1. exfalso. destruct Hcase as [(A & _)|[(A & _)|(_ & _ & A & B)]]; try (rewrite H0 in A; lra); try contradiction; auto.
         * intros _. exact Hge.
         * discriminate.
-      + assert (Hnc : c_conv c0 = true -> False).
-        { intros A. rewrite (Hend c Hs A) in Hc. apply cond_spec in Hc. destruct Hc; congruence. }
-        refine (conj _ (conj _ (conj _ (conj _ (conj _ (conj _ _)))))).
+        * discriminate.
+      + refine (conj _ (conj _ (conj _ (conj He1 (conj He2 (conj He3 (conj _ (conj _ _)))))))).
         * split; [tauto|discriminate].
         * split; discriminate.
         * split; [discriminate|tauto].
-        * intros H1. exfalso. destruct Hcase as [(A & _)|[(_ & A & B)|(A & _)]]; try (rewrite H1 in A; lra); try contradiction; auto.
-        * intros H0 H1. exfalso. destruct Hcase as [(A & _)|[(A & _)|(_ & _ & A & B)]]; try (rewrite H0 in A; lra); try contradiction; auto.
         * discriminate.
+        * intros Hrt _. apply cond_spec in Hc. destruct Hc as (Hc & _).
+          pose proof (unconverged_residual c0 c Hun Hs Hc) as Hlt. destruct Hz as (_ & Hz). rewrite Hz, Rabs_R0 in Hlt. lra.
         * discriminate.
     - rewrite H in Hr. inversion Hr; subst; clear Hr. destruct Hi as (A & B & C).
-      refine (conj _ (conj _ (conj _ (conj _ (conj _ (conj _ _)))))).
+      refine (conj _ (conj _ (conj _ (conj _ (conj _ (conj _ (conj _ (conj _ _)))))))).
       + split; [tauto|discriminate].
       + split; discriminate.
       + tauto.
-      + tauto.
-      + tauto.
+      + intros; lra.
+      + intros; lra.
+      + intros; contradiction.
+      + discriminate.
       + discriminate.
       + discriminate.
   Qed.
@@ -372,70 +423,75 @@ Section Loop.
                   Rmin b0 b1 <= xl <= Rmax b0 b1 /\ Rmin b0 b1 <= xh <= Rmax b0 b1.
   Proof.
     intros Hb Hr. pose proof (rtsafe_spec x0 b0 b1) as H. pose proof (bracket_invariant x0 b0 b1 Hb) as HI.
-    unfold iterate_of in HI. destruct (init f df x0 b0 b1) as [c0|]; [|rewrite H in Hr; discriminate].
+    unfold iterate_of in HI. destruct (init f df x0 b0 b1 r_tol) as [c0|]; [|rewrite H in Hr; discriminate].
     destruct H as (c & Hs & [(Hc & Hcv & E)|[(Hc & Hcv & Hge & E)|(Hc & Hz & E)]]); rewrite E in Hr; inversion Hr; subst; clear Hr.
     specialize (HI c (ex_intro _ c0 (conj eq_refl Hs))).
     split; [exact (inv_root_in _ _ _ HI)|].
     destruct HI as [A B C D E' _ _]. exists (c_xl c), (c_xh c). repeat split; try assumption; try apply E'; try apply A; try apply B.
   Qed.
 
-  (* why a run reports convergence: an end-point root returned untouched, or the last iteration met one of the tests *)
+  (* why a run reports convergence: an end point or the (clipped) guess already meets the residual tolerance and is returned
+     untouched, or the last iteration met one of the tests *)
   Theorem converged_reason x0 b0 b1 v it F dx :
     rtsafe f df x0 b0 b1 n x_tol r_tol = Res (Some v) true it F dx Converged ->
-    (it = 0 /\ (v = b0 \/ v = b1) /\ f v = 0)
+    (it = 0 /\ (v = b0 \/ v = b1 \/ v = clipR x0 b0 b1) /\ Rabs (f v) <= r_tol)
     \/ (exists p, iterate_of x0 b0 b1 p /\ c_conv p = false /\ c_i p < INR n /\ ~ zoz p /\ it = c_i p + 1 /\
                   v = c_root (body fdf x_tol r_tol p) /\
-                  (Rabs dx < x_tol \/ Rabs F < r_tol \/ v = c_root p \/ v = c_xl p)).
+                  (Rabs dx < x_tol \/ Rabs F <= r_tol \/ v = c_root p \/ v = c_xl p)).
   Proof.
     intros Hr. pose proof (rtsafe_spec x0 b0 b1) as H. pose proof (init_spec x0 b0 b1) as Hi.
-    unfold iterate_of. destruct (init f df x0 b0 b1) as [c0|]; [|rewrite H in Hr; discriminate].
+    unfold iterate_of. destruct (init f df x0 b0 b1 r_tol) as [c0|]; [|rewrite H in Hr; discriminate].
     destruct H as (c & Hs & [(Hc & Hcv & E)|[(Hc & Hcv & Hge & E)|(Hc & Hz & E)]]); rewrite E in Hr; inversion Hr; subst; clear Hr.
     destruct (steps_last _ _ Hs) as [->|(p & Hp & Hcp & Hzp & ->)].
-    - left. destruct Hi as (Hi0 & _ & _ & [(_ & A & _)|[(A & _ & B)|(_ & A & _ & B)]]); try congruence.
+    - left. destruct Hi as (Hi0 & _ & _ & _ & _ & [(A & _ & B)|[(_ & A & _ & B)|(_ & _ & _ & B & A)]]).
       + rewrite B. auto.
       + rewrite B. auto.
+      + rewrite B. split; [exact Hi0|]. split; [auto|]. rewrite A in Hcv. apply Rleb_true in Hcv. exact Hcv.
     - right. exists p. apply cond_spec in Hcp. destruct Hcp as (Hcp1 & Hcp2). apply zoz_false in Hzp.
       split; [exists c0; auto|]. repeat split; try assumption.
       + destruct (body_spec p) as (_ & _ & _ & _ & _ & _ & _ & A). exact A.
       + destruct (body_spec p) as (HB & HN & _ & HF' & _).
         destruct (Classical_Prop.classic (bisect_chosen p)) as [Hb|Hb].
         * destruct (HB Hb) as (_ & _ & Hcv'). rewrite Hcv' in Hcv.
-          rewrite !orb_true_iff, Rltb_true, Rltb_true, Reqb_true in Hcv. tauto.
+          rewrite !orb_true_iff, Rltb_true, Rleb_true, Reqb_true in Hcv. tauto.
         * destruct (HN Hb) as (_ & _ & Hcv'). rewrite Hcv' in Hcv.
-          rewrite !orb_true_iff, Rltb_true, Rltb_true, Reqb_true in Hcv. tauto.
+          rewrite !orb_true_iff, Rltb_true, Rleb_true, Reqb_true in Hcv. tauto.
   Qed.
 
-  (* with x_tol <= 0 (as the J2 update calls it) a bracketed converged run ends with |f| < r_tol or an exact root *)
-  Theorem converged_small_residual x0 b0 b1 v it F dx : x_tol <= 0 -> f b0 * f b1 < 0 ->
+  (* with x_tol <= 0 (as the J2 update calls it) and 0 <= r_tol a converged run ends with |f| <= r_tol *)
+  Theorem converged_small_residual x0 b0 b1 v it F dx : x_tol <= 0 -> 0 <= r_tol -> f b0 * f b1 < 0 ->
     rtsafe f df x0 b0 b1 n x_tol r_tol = Res (Some v) true it F dx Converged ->
-    Rabs (f v) < r_tol \/ f v = 0.
+    Rabs (f v) <= r_tol.
   Proof.
-    intros Hxt Hb Hr. pose proof (rtsafe_spec x0 b0 b1) as H. pose proof (init_spec x0 b0 b1) as Hi.
+    intros Hxt Hrt Hb Hr. pose proof (rtsafe_spec x0 b0 b1) as H. pose proof (init_spec x0 b0 b1) as Hi.
     pose proof (bracket_invariant x0 b0 b1 Hb) as HI. unfold iterate_of in HI.
-    destruct (init f df x0 b0 b1) as [c0|]; [|rewrite H in Hr; discriminate].
+    destruct (converged_reason x0 b0 b1 v it F dx Hr) as [(_ & _ & A)|_]; [exact A|].
+    destruct (init f df x0 b0 b1 r_tol) as [c0|]; [|rewrite H in Hr; discriminate].
     destruct H as (c & Hs & [(Hc & Hcv & E)|[(Hc & Hcv & Hge & E)|(Hc & Hz & E)]]); rewrite E in Hr; inversion Hr; subst; clear Hr.
     destruct (steps_last _ _ Hs) as [->|(p & Hp & Hcp & Hzp & ->)].
-    - exfalso. destruct Hi as (_ & _ & _ & [(_ & A & _)|[(A & _)|(_ & A & _)]]); try congruence; rewrite A in Hb; lra.
+    - destruct Hi as (_ & HF0 & _ & _ & _ & [(A & _ & B)|[(_ & A & _ & B)|(_ & _ & _ & B & A)]]); rewrite B; try exact A.
+      rewrite A in Hcv. apply Rleb_true in Hcv. exact Hcv.
     - apply zoz_false in Hzp. specialize (HI p (ex_intro _ c0 (conj eq_refl Hp))).
       destruct HI as [_ _ Hfl Hfh _ HFp _].
       destruct (body_spec p) as (HB & HN & _ & HF' & _).
       destruct (Classical_Prop.classic (bisect_chosen p)) as [Hbis|Hbis].
       + destruct (HB Hbis) as (_ & Hr' & Hcv'). rewrite Hcv' in Hcv.
-        rewrite !orb_true_iff, Rltb_true, Rltb_true, Reqb_true in Hcv.
+        rewrite !orb_true_iff, Rltb_true, Rleb_true, Reqb_true in Hcv.
         destruct Hcv as [[Hq|Hq]|Hq].
         * exfalso. rewrite Hr' in Hq. assert (c_xh p = c_xl p) by lra. rewrite H in Hfh. lra.
         * exfalso. pose proof (Rabs_pos (c_dx (body fdf x_tol r_tol p))). lra.
-        * left. rewrite <- HF'. exact Hq.
+        * rewrite <- HF'. exact Hq.
       + destruct (HN Hbis) as (_ & Hr' & Hcv'). rewrite Hcv' in Hcv.
         pose proof (newton_needs_slope p Hzp Hbis) as Hd.
-        rewrite !orb_true_iff, Rltb_true, Rltb_true, Reqb_true in Hcv.
+        rewrite !orb_true_iff, Rltb_true, Rleb_true, Reqb_true in Hcv.
         destruct Hcv as [[Hq|Hq]|Hq].
-        * right. rewrite Hq. rewrite <- HFp.
+        * rewrite Hq. rewrite <- HFp.
           rewrite Hr' in Hq. assert (Hz0 : - c_F p / c_DF p = 0) by lra.
-          unfold Rdiv in Hz0. apply Rmult_integral in Hz0. destruct Hz0 as [Hz0|Hz0]; [lra|].
-          exfalso. apply (Rinv_neq_0_compat _ Hd). exact Hz0.
+          unfold Rdiv in Hz0. apply Rmult_integral in Hz0. destruct Hz0 as [Hz0|Hz0].
+          -- replace (c_F p) with 0 by lra. rewrite Rabs_R0. exact Hrt.
+          -- exfalso. apply (Rinv_neq_0_compat _ Hd). exact Hz0.
         * exfalso. pose proof (Rabs_pos (c_dx (body fdf x_tol r_tol p))). lra.
-        * left. rewrite <- HF'. exact Hq.
+        * rewrite <- HF'. exact Hq.
   Qed.
 
   (* ---- bisection regime: the width halves, so the iteration cap decides ---- *)
